@@ -111,8 +111,17 @@ def run(prog, chk):
             continue
         chk.ob('R06.6', f, f.ln, False, 'unexpected writer of %s::%s (values %s)' % (rec['name'].split('::')[-1], flag, sorted(vals)),
                key='writer:' + f.short)
-    if not mark_base or not unmark_base or not alloc_fns:
-        raise AnalysisBroken('mark/unmark/allocate roles not all resolved')
+    # role first, today's name second: a role that no function fulfils any more is a violation when the function
+    # that used to fulfil it is still there (its effect changed), analysis-broken only when it vanished as well
+    for base, nm, what in ((mark_base, 'markMeasured', 'set'), (unmark_base, 'unmarkMeasured', 'clear')):
+        if not base:
+            c = [f for f in evfns if f.short == nm and len(f.params) == 1]
+            if not c:
+                raise AnalysisBroken('mark/unmark roles not resolved by effect nor by name')
+            chk.ob('R06.6', c[0], c[0].ln, False, '%s no longer %ss the measured flag of its argument' % (nm, what), key='role-effect:' + nm)
+            base.append((c[0], [0]))
+    if not alloc_fns:
+        raise AnalysisBroken('allocation role not resolved')
     MARK = ArgSummary(prog, mark_base, evfns, modulo_bounds=True)
     UNMARK = ArgSummary(prog, unmark_base, evfns, modulo_bounds=True)
     chk.count('flag writer functions', len(writers), 3)
